@@ -36,7 +36,9 @@ func (c *Encoder) Encodes(statements []ast.Statement) ([]byte, error) {
 		buf.Write(frame.Encode())
 	}
 	buf.Write(fin())
-	return buf.Bytes(), nil
+	// The buffer goes back to the pool: hand out a copy, not a view of pooled memory
+	// that the next encoding overwrites.
+	return bytes.Clone(buf.Bytes()), nil
 }
 
 func (c *Encoder) Encode(stmt ast.Statement) ([]byte, error) {
